@@ -106,6 +106,7 @@ def run(ctx):
     rr_rules(ctx, A)
     tdb_rules(ctx, A)
     seq_rules(ctx)
+    stale_state(ctx)
     type_size_rules(ctx)
     plumbing(ctx)
     accumulating_loops(ctx)
@@ -1452,6 +1453,66 @@ def registry_never_shrinks(ctx):
     ok = not sites
     selftest = bool(MAP_REMOVAL.search('std::collections::HashMap::<K, V, S, A>::retain')) and bool(MAP_REMOVAL.search('std::collections::HashSet::<T, S>::remove'))
     ctx.ob(['C14', 'C10', 'C19'], 'R-STATE', 'maps-only-grow', ok and selftest, 'no entry is ever removed from a map of modules / items / impl blocks / backends: %s' % sites[:3], nontrivial=not ok)
+
+
+STALE_REVIEWED = {
+    # function -> {type of the local: how many (loop, local) pairs}; what is carried and why it is meant to be
+    'semantic::enum_definition::build': {'std::option::Option<usize>': 1},
+    # default_index: the one `#[default]` variant of the enum is found in the attribute scan of its variants (state of the whole
+    # enum, not of one variant)
+}
+STALE_PROPS = [(r'enum_definition', ['C08', 'C20']), (r'type_definition::vftable', ['C04', 'C06', 'C16']), (r'type_definition', ['C01', 'C03', 'C07', 'C17']),
+               (r'semantic::function', ['C05', 'C16', 'C04']), (r'semantic_state|module|type_registry', ['C14', 'C02', 'C15', 'C11']),
+               (r'^<?parser', ['C18']), (r'^<?backends', ['C14', 'C13']), (r'^<?grammar', ['C17', 'C18'])]
+
+
+def stale_state(ctx):
+    """per-element state that is not reset per element: a named local that is assigned only inside an *inner* loop (the scan over
+    one element's attributes / parts), initialised only outside the *outer* loop (the loop over the elements), and read inside the
+    outer loop.  What the outer trip for element k reads is then what the scan of element k-1 left behind whenever the scan of
+    element k assigns nothing — an `#[index]` that sticks to the following functions, a `size` attribute inherited by the next
+    extern type.  (Whole-collection state gathered by nested scans is the same shape and legitimate: the `#[default]` variant of an
+    enum is found in the attribute scan of its variants.  Those are reviewed — one on the pinned tree.)"""
+    from r_resolve import uses_of_local
+    P = ctx.prog
+    nloops = 0
+    per = {}
+    for f in P.fns.values():
+        if f.raw.get('derived') or not re.match(r'^<?(semantic|grammar|backends|parser)::|^build', f.id):
+            continue
+        base = re.sub(r'(::\{closure#\d+\})+$', '', f.id)
+        loops = [(h, set(body) | {h}) for (h, body, latches) in f.loops()]
+        nloops += len(loops)
+        for (h1, B1) in loops:
+            inner = [(h2, B2) for (h2, B2) in loops if h2 != h1 and B2 < B1]
+            if not inner:
+                continue
+            for l, ds in f.defs().items():
+                if 1 <= l <= f.nargs:
+                    continue
+                nm = f.names.get(l)
+                if not nm:
+                    continue
+                in1 = [d for d in ds if d[0] in B1]
+                out1 = [d for d in ds if d[0] not in B1]
+                if not in1 or not out1:
+                    continue
+                if not all(any(d[0] in B2 for (h2, B2) in inner) for d in in1):
+                    continue        # (re)assigned in the outer body itself: reset or refreshed per element
+                if all(any(isinstance(y, tuple) and len(y) > 1 and y[0] == 'var' and y[1] == l for y in walk(f.expr_of_def(d))) for d in in1):
+                    continue        # accumulator
+                if not [1 for (bi, si) in uses_of_local(f, l) if bi in B1]:
+                    continue
+                ty = re.sub(r"'\w+ ?", '', f.local_ty(l))
+                per.setdefault(base, {}).setdefault(ty, set()).add(nm)
+    for base, tys in sorted(per.items()):
+        for ty, names in sorted(tys.items()):
+            allowed = STALE_REVIEWED.get(base, {}).get(ty, 0)
+            props = next((pr for rx, pr in STALE_PROPS if re.search(rx, base)), ['C09'])
+            ctx.ob(props, 'R-STATE', 'stale-state|%s|%s' % (short(base), ty[:50]), len(names) <= allowed,
+                   'locals of type %s that an inner scan assigns and that are not reset for each element of the outer loop: %s; reviewed: %d' % (ty[:50], sorted(names)[:4], allowed),
+                   loc(P.fns[base].span) if base in P.fns else '', nontrivial=len(names) > allowed)
+    ctx.ob(['C09'], 'R-STATE', 'stale-state|census', nloops >= 40, 'loops examined for per-element state that is not reset: %d (floor 40)' % nloops, nontrivial=False)
 
 
 def seq_rules(ctx):
